@@ -264,7 +264,7 @@ pub fn gen_http(t: &mut Tape, apps: &[AppSpec], p: &Profile, cup: bool) -> HttpS
         0 => HttpSpec::Resp(RespSpec {
             status: if t.chance(1, 8) { gen_status(t, 0) } else { 200 },
             retry_after: retry_after(t),
-            retry_after_name_case: t.choose(3) as u8,
+            retry_after_name_case: t.weighted(&[3, 2, 2, 1, 1]) as u8,
             body: if t.chance(1, 5) { BodySpec::DefaultNoUpdate } else { BodySpec::Doc(gen_doc(t, apps, p), t.u64_full()) },
             auth: Auth::Authentic,
             prefix: t.chance(1, 5),
@@ -278,7 +278,7 @@ pub fn gen_http(t: &mut Tape, apps: &[AppSpec], p: &Profile, cup: bool) -> HttpS
                 gen_status(t, c)
             },
             retry_after: retry_after(t),
-            retry_after_name_case: t.choose(3) as u8,
+            retry_after_name_case: t.weighted(&[3, 2, 2, 1, 1]) as u8,
             body: if t.flag() { BodySpec::Raw(RawBody::Empty) } else { BodySpec::Doc(gen_doc(t, apps, p), t.u64_full()) },
             auth: Auth::Authentic,
             prefix: false,
